@@ -460,6 +460,43 @@ pub fn c10_child(seed: u64, n: usize, dir: &str, tier: &str) {
                 }
             }
         }
+        // strings that carry a document of their own (the JSON of a procedural / action filter, a resource
+        // argument list, …) replaced by other well-formed documents, the length marker re-encoded: the buffer
+        // decodes, and whatever reads the inner document finds a shape the rule parser never produces
+        for (i, b) in good.iter().enumerate() {
+            let (hdr, len) = if (0xa2..=0xbf).contains(b) {
+                (1usize, (*b - 0xa0) as usize)
+            } else if *b == 0xd9 && i + 1 < good.len() {
+                (2, good[i + 1] as usize)
+            } else if *b == 0xda && i + 2 < good.len() {
+                (3, ((good[i + 1] as usize) << 8) | good[i + 2] as usize)
+            } else {
+                continue;
+            };
+            let start = i + hdr;
+            if start + len > good.len() {
+                continue;
+            }
+            let payload = match std::str::from_utf8(&good[start..start + len]) { Ok(p) => p, Err(_) => continue };
+            if !(payload.starts_with('{') || payload.starts_with('[')) {
+                continue;
+            }
+            for doc in ["{\"selector\":[]}", "{}", "[]", "null", "{\"selector\":[],\"action\":{\"type\":\"remove\"}}", "{\"selector\":[{\"type\":\"css-selector\",\"arg\":\"\"}]}",
+                        "{\"selector\":[{\"type\":\"has-text\",\"arg\":\"x\"},{\"type\":\"css-selector\",\"arg\":\".y\"}]}", "{\"selector\":[{\"type\":\"css-selector\",\"arg\":\".a\"},{\"type\":\"css-selector\",\"arg\":\".b\"}],\"action\":{\"type\":\"style\",\"arg\":\"\"}}",
+                        "{\"selector\":null}", "{\"action\":{\"type\":\"style\"}}"] {
+                let d = doc.as_bytes();
+                let mut v = good[..i].to_vec();
+                if d.len() < 32 {
+                    v.push(0xa0 | d.len() as u8);
+                } else {
+                    v.push(0xd9);
+                    v.push(d.len() as u8);
+                }
+                v.extend_from_slice(d);
+                v.extend_from_slice(&good[start + len..]);
+                variants.push((format!("inner document {} in the string at {}", doc, i), v));
+            }
+        }
         // random multi-byte corruptions
         for k in 0..n {
             let mut v = good.clone();
